@@ -80,6 +80,15 @@ using scoped_write_lock_guard = std::unique_lock<read_write_mutex>;
 
 #endif
 
+#ifdef OPTREE_VERIF_HOOKS
+// Verification build only: route every reader-writer lock of the engine through an instrumented
+// wrapper with identical blocking semantics (see optree/verif.h).
+#include "optree/verif.h"
+#define read_write_mutex ::optree_verif::shared_mutex
+#define scoped_read_lock_guard std::shared_lock<::optree_verif::shared_mutex>
+#define scoped_write_lock_guard std::unique_lock<::optree_verif::shared_mutex>
+#endif
+
 class scoped_critical_section {
 public:
     scoped_critical_section() = delete;
